@@ -30,7 +30,10 @@ CONSTANTS ChunkBytes, CMax,
           Variant    \* "faithful", or a named deviation used by bin/selftest to show the invariants are not vacuous:
                      \* "depth_ge" (limit test >=), "vec_no_ascend" (missing ascend after a vector),
                      \* "reserve_all" (reserve the claimed count at once), "count_wrap" (counter wraps),
-                     \* "mem_gt" (memory limit test >), "bool_any" (any non-zero byte is true)
+                     \* "mem_gt" (memory limit test >), "bool_any" (any non-zero byte is true),
+                     \* "list_no_descend", "box_no_announce", "unk_single_alloc" (unknown-length input: whole claimed
+                     \* vector allocated at once);  and one deviation that keeps every property and must be ACCEPTED:
+                     \* "bulk_no_guard" (the up-front remaining-length guard removed: chunking still bounds the heap)
 
 Dummy == [k |-> "unit", sz |-> 0]
 \* the code's saturating arithmetic on usize, scaled to TLC's integers (Huge stands for "beyond any limit in use")
@@ -154,11 +157,17 @@ StepLen(cfg, m0, t) ==
   CASE t.k \in {"seq", "str"} /\ (t.k = "str" \/ (BulkElems(cfg.E, t) /\ t.c # "list")) ->
          \* read_vec_from_u8s: guard only when the input knows its length
          LET w == IF t.k = "str" THEN 1 ELSE Resolve(cfg.E, t.t).w IN
-         IF cfg.known /\ (n = Huge \/ n > (Len(cfg.inp) - m.pos) \div w) THEN FailM(m, "data")
+         IF Variant # "bulk_no_guard" /\ cfg.known /\ (n = Huge \/ n > (Len(cfg.inp) - m.pos) \div w) THEN FailM(m, "data")
+         ELSE IF Variant = "unk_single_alloc" /\ ~cfg.known
+         THEN \* one allocation for the claimed count, then one read
+              LET m1 == Hold(Alloc(cfg, m, SatMul(n, w)), SatMul(n, w)) IN
+              IF m1.status # "run" THEN m1
+              ELSE IF n = Huge \/ ~CanRead(cfg, m1, n * w) THEN FailM(m1, "data")
+              ELSE Cont(PushV(Rd(cfg, m1, n * w), [j \in 1..n |-> Bytes(cfg, m1.pos + (j - 1) * w, w)]), <<Fr("seqfin", t, 0, 0)>>)
          ELSE Cont(PushV(m, <<>>), <<Fr("bulk", t, n, w), Fr("seqfin", t, 0, 0)>>)
     [] t.k = "seq" /\ (~BulkElems(cfg.E, t) \/ t.c = "list") ->
          IF t.c = "list"
-         THEN LET m1 == Desc(cfg, m) IN
+         THEN LET m1 == IF Variant = "list_no_descend" THEN [m EXCEPT !.depth = @ + 1] ELSE Desc(cfg, m) IN
               IF m1.status # "run" THEN m1
               ELSE LET node == ((16 + ElemSize(cfg.E, t.t) + 7) \div 8) * 8 IN       \* size_of::<(usize, usize, T)>()
                    LET m2 == Alloc(cfg, m1, SatMul(n, node)) IN
@@ -241,7 +250,7 @@ StepFrame(cfg, m) ==
          Pop([m EXCEPT !.vs = << [i |-> fr.x, fs |-> [j \in 1..fr.n |-> m.vs[fr.n + 1 - j]]] >> \o SubSeq(@, fr.n + 1, Len(@))])
     [] fr.op = "durchk" -> IF DigLess(m.vs[1][2], Billion) THEN Pop(m) ELSE FailM(m, "data")
     [] fr.op = "boxalloc" ->
-         LET m1 == Alloc(cfg, m, fr.t.tsz) IN
+         LET m1 == IF Variant = "box_no_announce" THEN m ELSE Alloc(cfg, m, fr.t.tsz) IN
          IF m1.status # "run" THEN m1 ELSE Pop(Hold(m1, fr.t.tsz))
     [] fr.op = "ascend" -> Pop(Asc(m))
     [] fr.op = "seqfin" ->
